@@ -234,6 +234,7 @@ func Property(id string) runner.Property {
 		},
 		Scenarios: func(tier string) []runner.Sc {
 			out := scenarios(id, tier)
+			out = append(out, narrow(id, tier)...)
 			if id == "C11" {
 				// publisher-level: a leaf closed while events are flowing must not disturb its siblings (all interleavings)
 				out = append(out, c05.SiblingScenarios("C11", tier)...)
